@@ -108,3 +108,41 @@ func dumpWriteSites(c *Ctx) {
 	}
 	fmt.Println("stores", nStore, "mapupdates", nMap, "functions", len(fns))
 }
+
+func dumpIndexSites(c *Ctx) {
+	for _, f := range srcFuncsIn(c.REval) {
+		loops := findLoops(f)
+		for _, ins := range instrsIn(f) {
+			call, ok := ins.(*ssa.Call)
+			if !ok {
+				continue
+			}
+			callee := call.Call.StaticCallee()
+			if callee == nil || !isReflectValue(recvType(callee)) || callee.Name() != "Index" {
+				continue
+			}
+			idx := call.Call.Args[1]
+			kind := "other"
+			if _, isK := idx.(*ssa.Const); isK {
+				kind = "const"
+			}
+			for _, l := range loops {
+				if !l.body[call.Block()] {
+					continue
+				}
+				if _, okc := l.classCounted(); okc {
+					// is idx the induction variable (or phi+1)?
+					if p, isP := idx.(*ssa.Phi); isP && p.Block() == l.header {
+						kind = "loopvar"
+					}
+					if b, isB := idx.(*ssa.BinOp); isB {
+						if p, isP := b.X.(*ssa.Phi); isP && p.Block() == l.header {
+							kind = "loopvar+"
+						}
+					}
+				}
+			}
+			fmt.Printf("INDEX %-8s %s %s idx=%s\n", kind, shortFn(f), c.W.Pos(call.Pos()), idx)
+		}
+	}
+}
